@@ -16,7 +16,7 @@
 MostAlignedType *stoAlloc(unsigned code, ULong size)
 {
 	void *p = 0;
-#ifndef NATIVE_REPLAY
+#if !defined(NATIVE_REPLAY) && !defined(V_ALLOC_SIMPLE)	/* V_ALLOC_SIMPLE: always one symbolic-size object (cheaper when sizes are tiny) */
 	if (size == 0) p = malloc(1);	/* (no loop here: harness loops would need unwinding bounds of their own) */
 	V_EXACT(1) V_EXACT(2) V_EXACT(3) V_EXACT(4) V_EXACT(5) V_EXACT(6) V_EXACT(7) V_EXACT(8)
 	V_EXACT(9) V_EXACT(10) V_EXACT(11) V_EXACT(12) V_EXACT(13) V_EXACT(14) V_EXACT(15) V_EXACT(16)
